@@ -593,3 +593,65 @@ func (c *Ctx) claimedFlagReleased() {
 		c.Fail("claimed-flag-released", "atomic flags", "-", bad[0], bad...)
 	}
 }
+
+// deferredStatusValidated (C03): net/http panics on WriteHeader with a status outside 100..999, and a
+// backend can send one ("HTTP/1.1 042").  A wrapper that records the status and delivers it later can be
+// asked to deliver it by Flush — which the reverse proxy also calls from its flush-timer goroutine,
+// where nothing recovers a panic: the process dies.  Every wrapper whose Flush can reach the embedded
+// WriteHeader has to look at the range of the code in its own WriteHeader (and let an invalid one fail
+// there, on the handler's goroutine).
+func (c *Ctx) deferredStatusValidated() {
+	p := c.P
+	n := 0
+	for _, w := range c.wrappers() {
+		fl := w.Methods["Flush"]
+		wh := w.Methods["WriteHeader"]
+		if fl == nil || wh == nil {
+			continue
+		}
+		// does Flush (with the wrapper's own helpers) reach the embedded WriteHeader?
+		reaches := false
+		seen := map[*ssa.Function]bool{}
+		var scan func(f *ssa.Function, d int)
+		scan = func(f *ssa.Function, d int) {
+			if f == nil || seen[f] || d > 3 || f.Blocks == nil {
+				return
+			}
+			seen[f] = true
+			for _, ci := range callsIn(f) {
+				if m, ok := w.embCall(p, ci, nil); ok && m == "WriteHeader" {
+					reaches = true
+				}
+				if g := StaticFn(ci); g != nil && g.Signature.Recv() != nil {
+					if nt := namedOf(g.Signature.Recv().Type()); nt != nil && types.Identical(nt, w.Named) {
+						scan(g, d+1)
+					}
+				}
+			}
+		}
+		scan(fl, 0)
+		if !reaches {
+			continue
+		}
+		n++
+		construct := w.Key + ".WriteHeader/status-range"
+		checked := false
+		instrsOf(wh, func(in ssa.Instruction) {
+			ifi, ok := in.(*ssa.If)
+			if !ok {
+				return
+			}
+			for _, pol := range []bool{true, false} {
+				r := p.RelOf(ifi.Cond, pol, nil)
+				if r.OK && r.Pred == "" && r.Y == "" && strings.HasPrefix(r.X, "param:") && (r.Hi == 99 || r.Lo == 100) {
+					checked = true
+				}
+			}
+		})
+		c.Check(checked, "deferred-status-validated", construct, p.Pos(wh.Pos()), "WriteHeader looks at the range of the code before recording it",
+			"the wrapper records any status and its Flush can deliver it: a backend status below 100 (\"HTTP/1.1 042\") makes net/http panic with \"invalid WriteHeader code\" on the reverse proxy's flush-timer goroutine, which nothing recovers — the whole process dies")
+	}
+	if n == 0 {
+		c.Pass("deferred-status-validated", "wrappers", "-", "no wrapper's Flush can deliver a recorded status")
+	}
+}
